@@ -99,9 +99,9 @@ impl PropCase for Total {
                     None => break,
                     Some(Ok(_)) => items += 1,
                     Some(Err(_)) => {
+                        // keep polling: the iteration as a whole has to end (bounded by |x|+1 items)
                         items += 1;
                         err = true;
-                        break;
                     }
                 }
                 if items > x.len() + 1 {
@@ -119,7 +119,7 @@ impl PropCase for Total {
         ensure!(
             st.0 <= x.len() + 1,
             "streaming-terminates",
-            format!("at most |x|+1 = {} items", x.len() + 1),
+            format!("the iteration ends after at most |x|+1 = {} items (events and errors)", x.len() + 1),
             format!("{} items and still going", st.0)
         );
         // observed classes
@@ -173,6 +173,32 @@ pub fn run(ctx: &mut Ctx) {
         for (k, off) in e.map.entry_offs.iter().enumerate() {
             if ctx.mine(k as u64) {
                 ctx.eval(&Total { x: e.bytes[..*off].to_vec(), family: "truncate-at-entry", big: None });
+            }
+        }
+    }
+    // huge declared lengths in front of 0..17 near-minimal (8..10 byte) entries: the cheapest possible input per
+    // declared entry
+    {
+        let mut r = crate::rng::Rng::new(777 + ctx.seed);
+        let mut i = 0u64;
+        for n in [0usize, 1, 2, 3, 4, 5, 8, 16, 17, 64] {
+            for rep in 0..3 {
+                let ast = smlgen::gen_tiny_list_file(&mut r, n);
+                let e = encode_canonical(&ast);
+                let _ = rep;
+                for ti in 0..e.map.tlfs.len() {
+                    if e.map.tlfs[ti].role != crate::refm::sml::Role::ValList {
+                        continue;
+                    }
+                    for (tl, cls) in crate::gen::corrupt::tlf_substitutions(&e, ti) {
+                        i += 1;
+                        if !ctx.mine(i) {
+                            continue;
+                        }
+                        let c = crate::gen::corrupt::replace_tlf(&e, ti, &tl, true, cls);
+                        ctx.eval(&Total { x: c.bytes, family: "huge-before-tiny-entries", big: None });
+                    }
+                }
             }
         }
     }
